@@ -56,6 +56,23 @@ void h_insert(void) { ARB(v); VF_INPUT(int, x); VF_INPUT(unsigned char, p); VF_I
   VF_ASSERT(WF(v) && view_eq(view_of(&v), sp_insert_n(o, p, 1, x)), "insert/emplace(pos,x): n' = n+1; prefix; a'[p] = x; suffix shifted up by one");
   VF_ASSERT(r == data_of(&v) + p, "insert/emplace(pos,x) returns begin()+p"); CAPACITY_UNCHANGED(v); VF_REACH(); }
 
+/* ---- arguments that alias an element of the vector itself ([sequence.reqmts]: v.insert(p, v[k]), v.push_back(v[k]),
+ * v.insert(p, n, v[k]), v.assign(n, v[k]), v.resize(n, v[k]) must behave as if the value had been copied first) */
+/*@GROUP name=alias_value props=C01,C02,C05 kind=K unwind=9 cost=3 when=(VF_N>1)*(VF_N<=8)@*/
+void h_alias_value(void) { ARB(v); VF_INPUT(unsigned char, p); VF_INPUT(unsigned char, k); VF_INPUT(unsigned char, c); VF_INPUT(unsigned char, which);
+  __CPROVER_assume(SZ(v) >= 1 && k < SZ(v) && p <= SZ(v) && which <= 4); view_t o = view_of(&v); int x = o.a[k]; const int *src = data_of(&v) + k;
+  if (which == 0) { __CPROVER_assume(SZ(v) < N); int *r = v_insert(&v, data_of(&v) + p, src);
+    VF_ASSERT(WF(v) && view_eq(view_of(&v), sp_insert_n(o, p, 1, x)) && r == data_of(&v) + p, "insert(pos, v[k]): the value v[k] had BEFORE the call is inserted"); }
+  else if (which == 1) { __CPROVER_assume(SZ(v) < N); v_push_back(&v, src);
+    VF_ASSERT(WF(v) && view_eq(view_of(&v), sp_insert_n(o, o.n, 1, x)), "push_back(v[k]) appends the value of v[k]"); }
+  else if (which == 2) { __CPROVER_assume(c <= N && SZ(v) + c <= N); int *r = v_insert_n(&v, data_of(&v) + p, c, src);
+    VF_ASSERT(WF(v) && view_eq(view_of(&v), sp_insert_n(o, p, c, x)) && r == data_of(&v) + p, "insert(pos, c, v[k]): c copies of the value v[k] had BEFORE the call"); }
+  else if (which == 3) { __CPROVER_assume(c <= N && c >= SZ(v)); v_resize_x(&v, c, src); view_t e = o; for (unsigned i = 0; i < N; ++i) if (i >= o.n && i < c) e.a[i] = x; e.n = c;
+    VF_ASSERT(WF(v) && view_eq(view_of(&v), e), "resize(c, v[k]) appends copies of the value of v[k]"); }
+  else { __CPROVER_assume(c <= N); v_assign_n(&v, c, src); view_t e; e.n = c; for (unsigned i = 0; i <= N; ++i) e.a[i] = i < c ? x : 0;
+    VF_ASSERT(WF(v) && SZ(v) == c, "assign(c, v[k]): size"); for (unsigned i = 0; i < N; ++i) if (i < c) VF_ASSERT(data_of(&v)[i] == x, "assign(c, v[k]): every element is the value v[k] had BEFORE the call"); }
+  VF_REACH(); }
+
 /*@GROUP name=insert_n props=C01,C02,C05 kind=K unwind=9 cost=3 when=(VF_N>0)*(VF_N<=8)@*/
 void h_insert_n(void) { ARB(v); VF_INPUT(int, x); VF_INPUT(unsigned char, p); VF_INPUT(unsigned char, c); __CPROVER_assume(p <= SZ(v) && c <= N && SZ(v) + c <= N); view_t o = view_of(&v);
   int *r = v_insert_n(&v, data_of(&v) + p, c, &x);
@@ -144,7 +161,9 @@ void h_access(void) { ARB(v); VF_INPUT(unsigned char, i); view_t o = view_of(&v)
   VF_ASSERT(v_size(&v) == o.n && v_empty(&v) == (o.n == 0) && v_full(&v) == (o.n == N), "size/empty/full follow the view"); CAPACITY_UNCHANGED(v);
   VF_ASSERT(v_data(&v) == data_of(&v) && v_begin(&v) == data_of(&v) && v_end(&v) == data_of(&v) + o.n, "data/begin/end");
   VF_ASSERT(v_rbegin_base(&v) == data_of(&v) + o.n && v_rend_base(&v) == data_of(&v), "rbegin().base() == end(), rend().base() == begin()");
-  if (o.n > 0) { VF_ASSERT(v_front(&v) == data_of(&v) && v_back(&v) == data_of(&v) + (o.n - 1), "front/back address the first/last element"); }
+  VF_ASSERT(v_cbegin(&v) == data_of(&v) && v_cend(&v) == data_of(&v) + o.n && v_begin_c(&v) == data_of(&v) && v_end_c(&v) == data_of(&v) + o.n && v_data_c(&v) == data_of(&v), "cbegin/cend, const begin/end/data");
+  VF_ASSERT(v_crbegin_base(&v) == data_of(&v) + o.n && v_crend_base(&v) == data_of(&v) && v_rbegin_c_base(&v) == data_of(&v) + o.n && v_rend_c_base(&v) == data_of(&v), "crbegin/crend and const rbegin/rend: base() == end() / begin()");
+  if (o.n > 0) { VF_ASSERT(v_front(&v) == data_of(&v) && v_back(&v) == data_of(&v) + (o.n - 1) && v_front_c(&v) == data_of(&v) && v_back_c(&v) == data_of(&v) + (o.n - 1), "front/back (const and non-const) address the first/last element"); }
   if (i < o.n) { VF_ASSERT(v_index(&v, i) == data_of(&v) + i && v_cindex(&v, i) == data_of(&v) + i, "operator[](i) addresses element i"); }
   VF_REACH(); }
 
